@@ -39,3 +39,71 @@ def minrun(E, b, m, i):
 
 def lib_len(a):
     return a.n if isinstance(a.n, int) else Z(a.n, INT)
+
+
+# ------------------------------------------------------------------------------------------------
+# C05 spec functions (extended reals)
+# ------------------------------------------------------------------------------------------------
+from vf import xops          # noqa: E402
+from vf.values import STR, str_code   # noqa: E402
+
+
+def _x(E, a, i):
+    return xops.to_x(E.rd(a, i))
+
+
+def ratio(a, b):
+    """min/max ratio with numpy semantics (nan-propagating min/max, x/0 -> inf/nan)"""
+    return xops.ratio(a, b)
+
+
+def clamp0(x):
+    return xops.clamp0(x)
+
+
+def _dir_is(E, direction, name):
+    r = E.eq(direction, name)
+    return z3.BoolVal(r) if isinstance(r, bool) else r.t
+
+
+def _ac_raw(E, rises, decays, peak_centred, direction, c):
+    c = term_int(c)
+    cur = ratio(_x(E, rises, c), _x(E, decays, c))
+    if peak_centred:
+        last = ratio(_x(E, rises, c), _x(E, decays, c - 1))
+        nxt = ratio(_x(E, rises, c + 1), _x(E, decays, c))
+    else:
+        last = ratio(_x(E, rises, c - 1), _x(E, decays, c))
+        nxt = ratio(_x(E, rises, c), _x(E, decays, c + 1))
+    both = xops.nanmin2(xops.nanmin2(cur, nxt), last)
+    v = xops.ite(_dir_is(E, direction, 'next'), xops.nanmin2(cur, nxt),
+                 xops.ite(_dir_is(E, direction, 'last'), xops.nanmin2(cur, last), both))
+    allnan = z3.And(xops.isnan(cur), xops.isnan(nxt), xops.isnan(last))
+    return xops.ite(allnan, xops.nan(), v)
+
+
+@specfn('amp_consistency_raw_spec')
+def amp_consistency_raw_spec(E, rises, decays, peak_centred, direction, c):
+    return _ac_raw(E, rises, decays, peak_centred, direction, c)
+
+
+@specfn('amp_consistency_spec')
+def amp_consistency_spec(E, rises, decays, peak_centred, direction, c):
+    """C05: the smallest min/max ratio among the adjacent rise/decay pairs that include one of the cycle's flanks
+    (three pairs for 'both', the two on the named side otherwise), clamped at 0; nan if all ratios are nan."""
+    return clamp0(_ac_raw(E, rises, decays, peak_centred, direction, c))
+
+
+@specfn('period_consistency_spec')
+def period_consistency_spec(E, periods, direction, c):
+    c = term_int(c)
+    p = lambda j: _x(E, periods, j)
+    last = ratio(p(c), p(c - 1))
+    nxt = ratio(p(c + 1), p(c))
+    both = xops.np_min2(nxt, last)
+    return xops.ite(_dir_is(E, direction, 'next'), nxt, xops.ite(_dir_is(E, direction, 'last'), last, both))
+
+
+@form('xnan')
+def f_xnan(E, node):
+    return xops.nan()
